@@ -39,11 +39,27 @@ pub fn line_cost(
     line_width: u64,
     pen: &PenSpec,
 ) -> u128 {
-    let target = line_width.max(1) as u128;
     let mut lw: u128 = 0;
     for t in i..j {
         lw += (w[t] + ws[t]) as u128;
     }
+    line_cost_lw(lw, ws, p, i, j, n, line_width, pen)
+}
+
+/// Same, with the sum of (width + whitespace) over [i..j) already known.
+#[allow(clippy::too_many_arguments)]
+fn line_cost_lw(
+    sum: u128,
+    ws: &[u64],
+    p: &[u64],
+    i: usize,
+    j: usize,
+    n: usize,
+    line_width: u64,
+    pen: &PenSpec,
+) -> u128 {
+    let target = line_width.max(1) as u128;
+    let mut lw = sum;
     lw -= ws[j - 1] as u128;
     lw += p[j - 1] as u128;
     let mut cost = pen.nline as u128;
@@ -75,13 +91,18 @@ pub fn dp_min(w: &[u64], ws: &[u64], p: &[u64], widths: &[u64], pen: &PenSpec) -
     let mut best = vec![u128::MAX; n + 1];
     let mut from = vec![0usize; n + 1];
     best[0] = 0;
+    // prefix sums of width + whitespace
+    let mut cum = vec![0u128; n + 1];
+    for t in 0..n {
+        cum[t + 1] = cum[t] + (w[t] + ws[t]) as u128;
+    }
     for j in 1..=n {
         // line 0
-        let c0 = line_cost(w, ws, p, 0, j, n, w0, pen);
+        let c0 = line_cost_lw(cum[j], ws, p, 0, j, n, w0, pen);
         best[j] = c0;
         from[j] = 0;
         for i in 1..j {
-            let c = best[i] + line_cost(w, ws, p, i, j, n, w1, pen);
+            let c = best[i] + line_cost_lw(cum[j] - cum[i], ws, p, i, j, n, w1, pen);
             if c < best[j] {
                 best[j] = c;
                 from[j] = i;
@@ -267,6 +288,9 @@ fn check_text(par: &str, spec: &OptSpec, prior: bool) -> Outcome {
     };
     let splitter = spec.split.splitter();
     let words = fragments(par, spec, &splitter);
+    if words.len() > 400 {
+        return Outcome::Skip("more than 400 fragments (the reference is quadratic)");
+    }
     // precondition of the statement: penalty width <= following fragment's width
     for t in 0..words.len().saturating_sub(1) {
         if words[t].penalty.len() > words[t + 1].width {
